@@ -241,6 +241,9 @@ def _check_single(r, comps, rep):
         'generator': lambda: (e for e in enc),
         'uri-canonical': lambda: cu_ref,
         'uri-no-leading-slash': lambda: cu_ref[1:] if comps and not cu_ref[1:].startswith('/') and not cu_ref.endswith('/') else cu_ref,
+        # ':' needs no escaping; written raw, and without the leading slash, the text may LOOK like it starts with a URI scheme
+        'uri-raw-colon-no-leading-slash': lambda: cu_ref[1:].replace('%3A', ':') if comps and not cu_ref[1:].startswith('/')
+        and not cu_ref.endswith('/') else cu_ref,
         'uri-raw-unicode': lambda: '/' + '/'.join(_raw_unicode(t, v) for t, v in comps) if comps and comps[-1] != (8, b'') else cu_ref,
         'list-str-raw-unicode': lambda: [_raw_unicode(t, v) for t, v in comps],
         'uri-lower-case-escapes': lambda: _recase(cu_ref, 0),
@@ -377,7 +380,44 @@ def _grid(tier):
                        'b': [[8, b'p'.hex()], [typ, bytes(other).hex()]], 'rep': 0}
 
 
+def run_digit_limit(case):
+    """Typed-number components of any size are written and read back whatever the interpreter's limit on int <-> str conversion
+    is set to (sys.set_int_max_str_digits / PYTHONINTMAXSTRDIGITS, a documented knob: 640 is its lowest value)."""
+    import sys
+    r = Result()
+    comp = T.enc_tlv(case['typ'], bytes([case['first']]) + bytes((case['fill'] + i) & 0xFF for i in range(case['n'] - 1)) if case['n'] else b'')
+    name = [T.enc_tlv(8, b'a'), comp]
+    old = sys.get_int_max_str_digits()
+    try:
+        sys.set_int_max_str_digits(case['limit'])
+        try:
+            s1 = Component.to_str(comp)
+            s2 = Name.to_str(name)
+            c2 = Component.from_str(Component.to_canonical_uri(comp))
+        except Exception as e:
+            r.bad(f'C09/digit-limit/raised/{type(e).__name__}', f'type {case["typ"]}, {case["n"]} octets, limit {case["limit"]}: {e!r}'[:300])
+            return r
+    finally:
+        sys.set_int_max_str_digits(old)
+    if bytes(c2) != comp:
+        r.bad('C09/digit-limit/canonical-uri-roundtrip', f'type {case["typ"]}, {case["n"]} octets')
+    if s1 != s2.rsplit('/', 1)[-1]:
+        r.bad('C09/digit-limit/name-and-component-differ', f'{s1[:40]} vs {s2[-40:]}')
+    r.key = (case['typ'], case['n'] // 100, case['limit'])
+    r.classes = (f'octets:{case["n"] // 250 * 250}+', f'limit:{case["limit"]}')
+    return r
+
+
+def _digit_limit_cases(tier):
+    for limit in (640, 1000, 4300):
+        for typ in (50, 52, 54, 56, 58, 8):
+            for n in (0, 1, 8, 9, 200, 265, 266, 267, 300, 415, 416, 1000, 1785, 1786, 1800, 2000):
+                yield {'typ': typ, 'n': n, 'first': 0xFF if n % 2 else 1, 'fill': n & 0xFF, 'limit': limit}
+
+
 SUBCHECKS = {
+    'digit-limit': SubCheck(run_digit_limit, enumerate=_digit_limit_cases, exhaustive={'quick': True, 'thorough': True},
+                            note='typed-number components of 0..2000 octets with the interpreter int/str digit limit at 640 / 1000 / 4300'),
     'grid': SubCheck(run_case, enumerate=_grid, exhaustive={'quick': True, 'thorough': True},
                      note='all 256 byte values x 3 positions x 4 component types, paired with the next byte value'),
     'names': SubCheck(run_case, strategy=lambda tier: _pair(),
